@@ -368,6 +368,12 @@ def parseIntD (j : Json) : Except String Json := do
     | .error .rejected => Json.mkObj [("error", "rejected")]
   pure r
 
+def parseBoolD (j : Json) : Except String Json := do
+  let s ← getHex j "s"
+  pure (match IntParse.parseBool s with
+    | some b => Json.mkObj [("ok", Json.bool b)]
+    | none => Json.mkObj [("error", "rejected")])
+
 def parseDateD (j : Json) : Except String Json := do
   let s ← getHex j "s"
   pure (match DateParse.parse s with
@@ -534,6 +540,7 @@ def dispatch (fn : String) (j : Json) : Except String Json :=
   | "combineParams" => combineParamsD j
   | "parseInt" => parseIntD j
   | "parseDate" => parseDateD j
+  | "parseBool" => parseBoolD j
   | "goQuote" => goQuoteD j
   | "secDefs" => secDefsD j
   | "provider" => providerD j
